@@ -2,11 +2,13 @@
 """usage: seedsave.py <seed-id> <property> <caught-by-json> <needs text> -- saves /tmp/seed/<seed-id> into /verif/seeded/<seed-id>/"""
 import json, os, shutil, sys, glob
 sid, prop, caught, needs = sys.argv[1], sys.argv[2], json.loads(sys.argv[3]), sys.argv[4]
-src = '/tmp/seed/' + sid
-dst = '/verif/seeded/' + sid
+base = os.environ.get('SEEDBASE', '/tmp/seed')
+suffix = os.environ.get('SEEDSUFFIX', '')
+src = base + '/' + sid
+dst = '/verif/seeded/' + sid + suffix
 os.makedirs(dst, exist_ok=True)
 shutil.copy(src + '/patch.diff', dst + '/patch.diff')
-demos = glob.glob('/tmp/seed/aside_%s/zz_demo*' % sid) + glob.glob(src + '/zz_demo*') + glob.glob(src + '/mux/zz_demo*')
+demos = glob.glob(base + '/aside_%s/zz_demo*' % sid) + glob.glob(src + '/zz_demo*') + glob.glob(src + '/mux/zz_demo*')
 seen = set()
 for d in demos:
     b = os.path.basename(d)
@@ -16,11 +18,11 @@ for d in demos:
 if os.path.exists(src + '/REPORT.md'):
     shutil.copy(src + '/REPORT.md', dst + '/REPORT.md')
 meta = {
-    "id": sid, "breaks_property": prop, "needs_to_manifest": needs,
+    "id": sid + suffix, "breaks_property": prop, "needs_to_manifest": needs,
     "author": "independent sub-agent given only the property text and a scratch worktree",
     "confirmed": "tools/seedconfirm.sh %s: existing suite ok with the change; demonstration fails with it and passes without it" % sid,
     "checks_run": caught,
-    "how_to_rerun": "tools/seedtest.sh seeded/%s/patch.diff quick %s" % (sid, prop),
+    "how_to_rerun": "tools/seedtest.sh seeded/%s/patch.diff quick %s" % (sid + suffix, prop),
 }
 json.dump(meta, open(dst + '/meta.json', 'w'), indent=1)
 print('saved', dst, sorted(os.listdir(dst)))
